@@ -7,7 +7,8 @@ use crate::tree::*;
 
 /// returns (impl line, oracle failure, nontrivial)
 pub fn eval(p: &Prog, sols: Option<&Vec<Vec<T>>>) -> (String, Option<String>, bool, u64) {
-    let out = run_prog(p);
+    // terminating programs: a generous budget, so that only genuine divergence is cut short
+    let out = run_prog_b(p, 3_000_000);
     let fuel = model_fuel(&out);
     let line = show_run(&out, false);
     let answers = match &out {
